@@ -14,9 +14,10 @@ go build ./... || { echo "BUILD FAILS"; exit 1; }
 if go test -vet=off -count=1 ./... > $OUT/suite.log 2>&1; then echo "== suite passes with the change"; else echo "== SUITE FAILS with the change"; grep -v "^ok\|no test files" $OUT/suite.log | head; fi
 if [ -x demo_seed/run.sh ]; then
   ./demo_seed/run.sh > $OUT/demo_with.log 2>&1; W=$?
-  git stash -q -- . ':!demo_seed' ':!SEEDED.md'
+  # (git stash is shared by all worktrees of a repository: use the patch instead)
+  git apply -R $OUT/patch.diff
   ./demo_seed/run.sh > $OUT/demo_without.log 2>&1; WO=$?
-  git stash pop -q
+  git apply $OUT/patch.diff
   echo "== demo exit with change: $W, without: $WO"
 fi
 rm -rf $OUT/demo; mkdir -p $OUT/demo
